@@ -1,4 +1,316 @@
-From PV Require Import Base.MachineInt Model.C08Encode.
-Theorem C08_encode_placeholder : enc_size 2 4 = 2%nat.
+(* C08, second sentence — integer encoding / decoding of poulpy-hal/src/layouts/encoding.rs.
+   Only pinned statements, `exact` proofs, Print Assumptions and Examples.
+
+   Model (Model/C08Encode.v, release semantics, one coefficient = its limbs, most significant first):
+     enc_i64 b k a_size v / enc_i128 b k a_size v   encode_vec_i64 (= encode_coeff_i64 on one index) / encode_vec_i128
+     dec_vec 64 / dec_vec 128 / dec_coeff_i64           decode_vec_i64 / decode_vec_i128 / decode_coeff_i64
+     dec_float                                      decode_vec_float as the exact pair (num, e): value = num / 2^e
+   Spec notions: enc_size b k = ceil(k/b); enc_krem b k = size*b - k; [enc_lo b k, enc_hi b k] = the 2^k integers that a
+   balanced expansion on `size` limbs (last limb holding b - krem bits) can represent; enc_fits b k v = v lies in it;
+   enc_rep b k V = the representative of V modulo 2^k in that interval; e_lval b l = value of a digit list. *)
+From PV Require Import Base.MachineInt Model.Znx Model.Limbs Model.Flat Model.C08Encode Model.C08Oracle
+  Proofs.C08EncodeSpec Proofs.C08EncodeCoef Proofs.C08EncodeDec Proofs.C08EncodeMain Proofs.C08EncodeFloat
+  Proofs.C08EncodeFlat Proofs.C08EncodeRun Proofs.C08EncodeCor Proofs.C08EncodeRefute.
+Open Scope Z_scope.
+
+(* ---------------- what the encoders write (all i64 / i128 inputs, wrap included) ---------------- *)
+
+(* `top_eff w r v` = v, or v - 2^w when the first carry `x - digit` (digit of radix 2^r) wraps, i.e. v - wrap r v >= 2^(w-1);
+   `enc_spec b k a_size V` = balanced digits of radix 2^b of bdiv (b-krem) V, then wrap (b-krem) V * 2^krem, then zeros *)
+Theorem C08_encode_i64_spec : forall b, 1 <= b <= 62 -> forall k (a_size : nat) v, 1 <= k <= Z.of_nat a_size * b ->
+  in_range 64 v -> enc_i64 b k a_size v = enc_spec b k a_size (top_eff 64 (b - enc_krem b k) v).
+Proof. exact enc_i64_spec. Qed.
+Print Assumptions C08_encode_i64_spec.
+
+Theorem C08_encode_i128_spec : forall b, 1 <= b <= 62 -> forall k (a_size : nat) v, 1 <= k <= Z.of_nat a_size * b ->
+  in_range 128 v -> enc_i128 b k a_size v = enc_spec b k a_size (top_eff 128 b v).
+Proof. exact enc_i128_spec. Qed.
+Print Assumptions C08_encode_i128_spec.
+
+(* digits balanced, limbs beyond ceil(k/b) zeroed (up to the active size), last limb a multiple of 2^krem *)
+Theorem C08_encode_digits_balanced : forall b, 1 <= b <= 62 -> forall k (a_size : nat) v, 1 <= k <= Z.of_nat a_size * b ->
+  in_range 64 v ->
+  let l := enc_i64 b k a_size v in let size := enc_size b k in
+  length l = a_size /\ Forall (in_range b) (firstn size l) /\ skipn size l = zeros (a_size - size) /\
+  nthZ l (size - 1) mod 2 ^ enc_krem b k = 0.
+Proof. exact enc_i64_digits. Qed.
+Print Assumptions C08_encode_digits_balanced.
+
+Theorem C08_encode_digits_balanced_i128 : forall b, 1 <= b <= 62 -> forall k (a_size : nat) v, 1 <= k <= Z.of_nat a_size * b ->
+  in_range 128 v ->
+  let l := enc_i128 b k a_size v in let size := enc_size b k in
+  length l = a_size /\ Forall (in_range b) (firstn size l) /\ skipn size l = zeros (a_size - size) /\
+  nthZ l (size - 1) mod 2 ^ enc_krem b k = 0.
+Proof. exact enc_i128_digits. Qed.
+Print Assumptions C08_encode_digits_balanced_i128.
+
+(* the limbs hold v / 2^k on the torus: sum_j limb_j 2^((size-1-j) b) = v * 2^krem modulo 2^(size b) - provided the
+   precision does not exceed the word width or the first carry does not wrap *)
+Theorem C08_encode_value_i64 : forall b, 1 <= b <= 62 -> forall k (a_size : nat) v, 1 <= k <= Z.of_nat a_size * b ->
+  in_range 64 v -> k <= 64 \/ v - wrap (b - enc_krem b k) v < 2 ^ 63 ->
+  (e_lval b (firstn (enc_size b k) (enc_i64 b k a_size v)) - v * 2 ^ enc_krem b k)
+    mod 2 ^ (Z.of_nat (enc_size b k) * b) = 0.
+Proof. exact enc_i64_value. Qed.
+Print Assumptions C08_encode_value_i64.
+
+Theorem C08_encode_value_i128 : forall b, 1 <= b <= 62 -> forall k (a_size : nat) v, 1 <= k <= Z.of_nat a_size * b ->
+  in_range 128 v -> k <= 128 \/ v - wrap b v < 2 ^ 127 ->
+  (e_lval b (firstn (enc_size b k) (enc_i128 b k a_size v)) - v * 2 ^ enc_krem b k)
+    mod 2 ^ (Z.of_nat (enc_size b k) * b) = 0.
+Proof. exact enc_i128_value. Qed.
+Print Assumptions C08_encode_value_i128.
+
+(* DEFECT (known finding encode.first_carry_wraps): without that proviso the statement is false although |v| < 2^(k-2) *)
+Theorem C08_encode_value_top_refuted : exists b k a_size v, 2 <= b <= 62 /\ 1 <= k <= Z.of_nat a_size * b /\
+  in_range 64 v /\ 4 * Z.abs v < 2 ^ k /\
+  (e_lval b (firstn (enc_size b k) (enc_i64 b k a_size v)) - v * 2 ^ enc_krem b k) mod 2 ^ (Z.of_nat (enc_size b k) * b) <> 0 /\
+  dec_vec 128 b k (enc_i64 b k a_size v) <> v.
+Proof. exact value_top_i64_refuted. Qed.
+Print Assumptions C08_encode_value_top_refuted.
+
+Theorem C08_encode_value_top_i128_refuted : exists b k a_size v, 2 <= b <= 62 /\ 1 <= k <= Z.of_nat a_size * b /\
+  in_range 128 v /\ 4 * Z.abs v < 2 ^ k /\
+  (e_lval b (firstn (enc_size b k) (enc_i128 b k a_size v)) - v * 2 ^ enc_krem b k) mod 2 ^ (Z.of_nat (enc_size b k) * b) <> 0.
+Proof. exact value_top_i128_refuted. Qed.
+Print Assumptions C08_encode_value_top_i128_refuted.
+
+(* ---------------- the decoders ---------------- *)
+
+(* exact Horner value (last partial limb divided by 2^krem, rounded half away from zero), wrapped to the word;
+   limbs are arbitrary i64 (un-normalised, garbage) *)
+Theorem C08_decode_spec : forall w b, 64 <= w -> 1 <= b <= 62 -> forall k l, 1 <= k -> (enc_size b k <= length l)%nat ->
+  Forall (in_range 64) l -> dec_vec w b k l = wrap w (dec_exact b k l).
+Proof. exact dec_vec_spec. Qed.
+Print Assumptions C08_decode_spec.
+
+Theorem C08_decode_coeff_is_vec : forall b k l, 1 <= b <= 62 -> 1 <= k -> (enc_size b k <= length l)%nat ->
+  Forall (in_range 64) l -> dec_coeff_i64 b k l = dec_vec 64 b k l.
+Proof. exact dec_coeff_vec. Qed.
+Print Assumptions C08_decode_coeff_is_vec.
+
+(* ---------------- the representable range ---------------- *)
+
+Theorem C08_encode_range : forall b k, 1 <= b -> 1 <= k ->
+  enc_hi b k = enc_lo b k + 2 ^ k - 1 /\ enc_lo b k <= - 2 ^ (k - 1) /\ 0 <= enc_hi b k < 2 ^ (k - 1) /\
+  (enc_size b k = 1%nat -> enc_lo b k = - 2 ^ (k - 1) /\ enc_hi b k = 2 ^ (k - 1) - 1) /\
+  ((2 <= enc_size b k)%nat -> enc_lo b k <= - 2 ^ (k - 1) - 1 /\ enc_hi b k < 2 ^ (k - 1) - 1).
+Proof. exact enc_range_facts. Qed.
+Print Assumptions C08_encode_range.
+
+(* |v| < 2^(k-2) (written 4|v| < 2^k so that k = 1 is meaningful) fits, for every radix b >= 2 *)
+Theorem C08_encode_fits_small : forall b k v, 2 <= b -> 1 <= k -> 4 * Z.abs v < 2 ^ k -> enc_lo b k <= v <= enc_hi b k.
+Proof. exact small_fits. Qed.
+Print Assumptions C08_encode_fits_small.
+
+(* ---------------- round trips, one coefficient ---------------- *)
+
+(* for EVERY i64 v: the result is an i64 congruent to v modulo 2^min(k,64) (so it IS v when k >= 64); for k <= 63 it is the
+   representative of v modulo 2^k in [enc_lo, enc_hi]; and it is v whenever v lies in that interval *)
+Theorem C08_encode_decode_i64_mod : forall b, 1 <= b <= 62 -> forall k (a_size : nat) v, 1 <= k <= Z.of_nat a_size * b ->
+  in_range 64 v ->
+  let r := dec_vec 64 b k (enc_i64 b k a_size v) in
+  in_range 64 r /\ (r - v) mod 2 ^ (Z.min k 64) = 0 /\
+  (k <= 63 -> enc_lo b k <= r <= enc_hi b k /\ (r - v) mod 2 ^ k = 0) /\
+  (enc_lo b k <= v <= enc_hi b k -> r = v).
+Proof. exact rt_i64. Qed.
+Print Assumptions C08_encode_decode_i64_mod.
+
+Theorem C08_encode_decode_i64 : forall b, 1 <= b <= 62 -> forall k (a_size : nat) v, 1 <= k <= Z.of_nat a_size * b ->
+  in_range 64 v -> enc_fits b k v = true -> dec_vec 64 b k (enc_i64 b k a_size v) = v.
+Proof. exact rt_i64_fits. Qed.
+Print Assumptions C08_encode_decode_i64.
+
+Theorem C08_encode_decode_i64_small : forall b, 1 <= b <= 62 -> forall k (a_size : nat) v, 2 <= b ->
+  1 <= k <= Z.of_nat a_size * b -> in_range 64 v -> 4 * Z.abs v < 2 ^ k ->
+  dec_vec 64 b k (enc_i64 b k a_size v) = v.
+Proof. exact rt_i64_small. Qed.
+Print Assumptions C08_encode_decode_i64_small.
+
+(* what comes back at the boundaries: +2^(k-1) returns as -2^(k-1); 2^(k-1) - 1 returns exactly on one limb and as
+   -2^(k-1) - 1 (outside the centred range) on two or more limbs *)
+Theorem C08_encode_decode_i64_boundary : forall b, 1 <= b <= 62 -> forall k (a_size : nat), 1 <= k <= Z.of_nat a_size * b ->
+  k <= 63 ->
+  let rt := fun v => dec_vec 64 b k (enc_i64 b k a_size v) in
+  rt (2 ^ (k - 1)) = - 2 ^ (k - 1) /\ rt (- 2 ^ (k - 1)) = - 2 ^ (k - 1) /\
+  rt (2 ^ (k - 1) - 1) = if Nat.eqb (enc_size b k) 1 then 2 ^ (k - 1) - 1 else - 2 ^ (k - 1) - 1.
+Proof. exact rt_i64_boundary. Qed.
+Print Assumptions C08_encode_decode_i64_boundary.
+
+Theorem C08_encode_decode_i128_mod : forall b, 1 <= b <= 62 -> forall k (a_size : nat) v, 1 <= k <= Z.of_nat a_size * b ->
+  in_range 128 v ->
+  let r := dec_vec 128 b k (enc_i128 b k a_size v) in
+  in_range 128 r /\ (r - v) mod 2 ^ (Z.min k 128) = 0 /\
+  (k <= 127 -> enc_lo b k <= r <= enc_hi b k /\ (r - v) mod 2 ^ k = 0) /\
+  (enc_lo b k <= v <= enc_hi b k -> r = v).
+Proof. exact rt_i128. Qed.
+Print Assumptions C08_encode_decode_i128_mod.
+
+Theorem C08_encode_decode_i128 : forall b, 1 <= b <= 62 -> forall k (a_size : nat) v, 1 <= k <= Z.of_nat a_size * b ->
+  in_range 128 v -> enc_fits b k v = true -> dec_vec 128 b k (enc_i128 b k a_size v) = v.
+Proof. exact rt_i128_fits. Qed.
+Print Assumptions C08_encode_decode_i128.
+
+Theorem C08_encode_decode_i128_small : forall b, 1 <= b <= 62 -> forall k (a_size : nat) v, 2 <= b ->
+  1 <= k <= Z.of_nat a_size * b -> in_range 128 v -> 4 * Z.abs v < 2 ^ k ->
+  dec_vec 128 b k (enc_i128 b k a_size v) = v.
+Proof. exact rt_i128_small. Qed.
+Print Assumptions C08_encode_decode_i128_small.
+
+Theorem C08_encode_decode_i128_boundary : forall b, 1 <= b <= 62 -> forall k (a_size : nat), 1 <= k <= Z.of_nat a_size * b ->
+  k <= 127 ->
+  let rt := fun v => dec_vec 128 b k (enc_i128 b k a_size v) in
+  rt (2 ^ (k - 1)) = - 2 ^ (k - 1) /\ rt (- 2 ^ (k - 1)) = - 2 ^ (k - 1) /\
+  rt (2 ^ (k - 1) - 1) = if Nat.eqb (enc_size b k) 1 then 2 ^ (k - 1) - 1 else - 2 ^ (k - 1) - 1.
+Proof. exact rt_i128_boundary. Qed.
+Print Assumptions C08_encode_decode_i128_boundary.
+
+(* single-coefficient form: encode_coeff_i64 writes enc_i64 on one index, decode_coeff_i64 reads it *)
+Theorem C08_encode_decode_coeff_mod : forall b, 1 <= b <= 62 -> forall k (a_size : nat) v, 1 <= k <= Z.of_nat a_size * b ->
+  in_range 64 v ->
+  let r := dec_coeff_i64 b k (enc_i64 b k a_size v) in
+  in_range 64 r /\ (r - v) mod 2 ^ (Z.min k 64) = 0 /\
+  (k <= 63 -> enc_lo b k <= r <= enc_hi b k /\ (r - v) mod 2 ^ k = 0) /\
+  (enc_lo b k <= v <= enc_hi b k -> r = v).
+Proof. exact rt_coeff. Qed.
+Print Assumptions C08_encode_decode_coeff_mod.
+
+Theorem C08_encode_decode_coeff : forall b, 1 <= b <= 62 -> forall k (a_size : nat) v, 1 <= k <= Z.of_nat a_size * b ->
+  in_range 64 v -> enc_fits b k v = true -> dec_coeff_i64 b k (enc_i64 b k a_size v) = v.
+Proof. exact rt_coeff_fits. Qed.
+Print Assumptions C08_encode_decode_coeff.
+
+Theorem C08_encode_decode_coeff_small : forall b, 1 <= b <= 62 -> forall k (a_size : nat) v, 2 <= b ->
+  1 <= k <= Z.of_nat a_size * b -> in_range 64 v -> 4 * Z.abs v < 2 ^ k ->
+  dec_coeff_i64 b k (enc_i64 b k a_size v) = v.
+Proof. exact rt_coeff_small. Qed.
+Print Assumptions C08_encode_decode_coeff_small.
+
+Theorem C08_encode_decode_coeff_boundary : forall b, 1 <= b <= 62 -> forall k (a_size : nat), 1 <= k <= Z.of_nat a_size * b ->
+  k <= 63 ->
+  let rt := fun v => dec_coeff_i64 b k (enc_i64 b k a_size v) in
+  rt (2 ^ (k - 1)) = - 2 ^ (k - 1) /\ rt (- 2 ^ (k - 1)) = - 2 ^ (k - 1) /\
+  rt (2 ^ (k - 1) - 1) = if Nat.eqb (enc_size b k) 1 then 2 ^ (k - 1) - 1 else - 2 ^ (k - 1) - 1.
+Proof. exact rt_coeff_boundary. Qed.
+Print Assumptions C08_encode_decode_coeff_boundary.
+
+(* an i64 encoding read back at 128 bits is exact as long as the first carry did not wrap *)
+Theorem C08_encode_i64_decode_i128 : forall b, 1 <= b <= 62 -> forall k (a_size : nat) v, 1 <= k <= Z.of_nat a_size * b ->
+  in_range 64 v -> v - wrap (b - enc_krem b k) v < 2 ^ 63 -> enc_lo b k <= v <= enc_hi b k ->
+  dec_vec 128 b k (enc_i64 b k a_size v) = v.
+Proof. exact rt_i64_dec128. Qed.
+Print Assumptions C08_encode_i64_decode_i128.
+
+(* the result is not always in the centred range, and radix 2^1 represents no positive value *)
+Theorem C08_encode_decode_centered_refuted : exists b k a_size v, 2 <= b <= 62 /\ 1 <= k <= Z.of_nat a_size * b /\
+  - 2 ^ (k - 1) <= v < 2 ^ (k - 1) /\
+  ~ (- 2 ^ (k - 1) <= dec_vec 64 b k (enc_i64 b k a_size v) < 2 ^ (k - 1)).
+Proof. exact centered_refuted. Qed.
+Print Assumptions C08_encode_decode_centered_refuted.
+
+Theorem C08_encode_decode_radix1_refuted : exists k a_size v, 1 <= k <= Z.of_nat a_size * 1 /\ in_range 64 v /\
+  4 * Z.abs v < 2 ^ k /\ dec_vec 64 1 k (enc_i64 1 k a_size v) <> v.
+Proof. exact radix1_refuted. Qed.
+Print Assumptions C08_encode_decode_radix1_refuted.
+
+(* ---------------- frame, on flat buffers ---------------- *)
+
+(* encode_vec_i64 / encode_vec_i128 (any `coef`): only words of the active limbs [0, size) of column col can change:
+   other columns and the limbs between the active size and the capacity are untouched *)
+Theorem C08_encode_frame : forall coef allow0 b k s buf data buf',
+  enc_vec_flat coef allow0 b k s buf data = Some buf' ->
+  length buf' = length buf /\
+  forall idx d, e_in_col (s_n s) (s_cols s) (s_size s) (s_col s) idx = false -> nth idx buf' d = nth idx buf d.
+Proof. exact enc_vec_flat_frame. Qed.
+Print Assumptions C08_encode_frame.
+
+(* encode_coeff_i64: exactly the words (limb j < size, column col, coefficient idx) are written, with enc_i64; every other
+   word - other columns, limbs beyond the active size, OTHER COEFFICIENTS of the column - is untouched *)
+Theorem C08_encode_frame_coeff : forall b k s buf idx v buf',
+  enc_coeff_flat b k s buf idx v = Some buf' ->
+  length buf' = length buf /\
+  (forall pos d, (forall j, (j < s_size s)%nat -> pos <> e_off s j idx) -> nth pos buf' d = nth pos buf d) /\
+  (forall j, (j < s_size s)%nat -> nth (e_off s j idx) buf' 0 = nthZ (enc_i64 b k (s_size s) v) j).
+Proof. exact enc_coeff_flat_frame. Qed.
+Print Assumptions C08_encode_frame_coeff.
+
+Theorem C08_encode_frame_coeff_others : forall b k s buf idx v buf',
+  enc_coeff_flat b k s buf idx v = Some buf' ->
+  forall pos d, e_in_col (s_n s) (s_cols s) (s_size s) (s_col s) pos = false \/ (pos mod s_n s)%nat <> idx ->
+  nth pos buf' d = nth pos buf d.
+Proof. exact enc_coeff_flat_others. Qed.
+Print Assumptions C08_encode_frame_coeff_others.
+
+(* ---------------- end to end: records 8301 / 8302 / 8303 of the executable model ---------------- *)
+
+(* for every well-shaped call (any garbage in the buffer): the record returns the buffer with the column holding the
+   per-coefficient encodings and everything else unchanged, and the decoded vector *)
+Theorem C08_encode_decode_flat_i64 : forall ps buf data : list Z,
+  let s := e_shape ps in let b := e_p ps 10 in let k := e_p ps 11 in
+  1 <= b <= 62 -> 1 <= k <= Z.of_nat (s_size s) * b -> e_ok s buf = true -> length data = s_n s ->
+  Forall (fun v => in_range 64 v /\ enc_fits b k v = true) data ->
+  exists buf', run_c08_enc 8301 ps [buf; data] = Some [buf'; data] /\ length buf' = length buf /\
+    (forall idx d, e_in_col (s_n s) (s_cols s) (s_size s) (s_col s) idx = false -> nth idx buf' d = nth idx buf d) /\
+    e_coeffs s buf' = map (enc_i64 b k (s_size s)) data.
+Proof. exact flat_rt_i64. Qed.
+Print Assumptions C08_encode_decode_flat_i64.
+
+Theorem C08_encode_decode_flat_i128 : forall ps buf data : list Z,
+  let s := e_shape ps in let b := e_p ps 10 in let k := e_p ps 11 in
+  1 <= b <= 62 -> 1 <= k <= Z.of_nat (s_size s) * b -> e_ok s buf = true -> length data = s_n s ->
+  Forall (fun v => in_range 128 v /\ enc_fits b k v = true) data ->
+  exists buf', run_c08_enc 8302 ps [buf; data] = Some [buf'; data] /\ length buf' = length buf /\
+    (forall idx d, e_in_col (s_n s) (s_cols s) (s_size s) (s_col s) idx = false -> nth idx buf' d = nth idx buf d) /\
+    e_coeffs s buf' = map (enc_i128 b k (s_size s)) data.
+Proof. exact flat_rt_i128. Qed.
+Print Assumptions C08_encode_decode_flat_i128.
+
+Theorem C08_encode_decode_flat_coeff : forall (ps buf : list Z) (v : Z),
+  let s := e_shape ps in let b := e_p ps 10 in let k := e_p ps 11 in let idx := Z.to_nat (e_p ps 12) in
+  1 <= b <= 62 -> 1 <= k <= Z.of_nat (s_size s) * b -> e_ok s buf = true -> (idx < s_n s)%nat ->
+  in_range 64 v -> enc_fits b k v = true ->
+  exists buf', run_c08_enc 8303 ps [buf; [v]] = Some [buf'; [v]] /\ length buf' = length buf /\
+    (forall pos d, e_in_col (s_n s) (s_cols s) (s_size s) (s_col s) pos = false \/ (pos mod s_n s)%nat <> idx ->
+       nth pos buf' d = nth pos buf d) /\
+    nth idx (e_coeffs s buf') [] = enc_i64 b k (s_size s) v.
+Proof. exact flat_rt_coeff. Qed.
+Print Assumptions C08_encode_decode_flat_coeff.
+
+(* ---------------- arbitrary-precision decoding ---------------- *)
+
+(* decode_vec_float returns num / 2^e with e = size*b and num = sum_j limb_j 2^(e - (j+1) b) (`val_scaled` of
+   Model/C08Oracle.v), i.e. exactly sum_j limb_j 2^(-(j+1) b); limbs arbitrary *)
+Theorem C08_decode_float_exact : forall b (l : list Z), 0 <= b ->
+  let '(num, e) := dec_float b l in
+  e = Z.of_nat (length l) * b /\ num = val_scaled e b l.
+Proof. exact dec_float_exact. Qed.
+Print Assumptions C08_decode_float_exact.
+
+(* ---------------- the hypotheses are satisfiable ---------------- *)
+
+Example C08_encode_decode_i64_ex : dec_vec 64 17 40 (enc_i64 17 40 3 (-123456789)) = -123456789.
+Proof. apply C08_encode_decode_i64_small; unfold in_range; cbn; lia. Qed.
+
+Example C08_encode_decode_i128_ex : dec_vec 128 62 186 (enc_i128 62 186 4 (- 2 ^ 100 + 12345)) = - 2 ^ 100 + 12345.
+Proof. apply C08_encode_decode_i128_small; unfold in_range; cbn; lia. Qed.
+
+Example C08_encode_decode_coeff_ex : dec_coeff_i64 3 7 (enc_i64 3 7 3 (-31)) = -31.
+Proof. apply C08_encode_decode_coeff_small; unfold in_range; cbn; lia. Qed.
+
+Example C08_encode_decode_i64_boundary_ex :
+  dec_vec 64 3 7 (enc_i64 3 7 3 64) = -64 /\ dec_vec 64 3 7 (enc_i64 3 7 3 (-64)) = -64 /\
+  dec_vec 64 3 7 (enc_i64 3 7 3 63) = -65.
+Proof. apply (C08_encode_decode_i64_boundary 3 ltac:(lia) 7 3%nat); cbn; lia. Qed.
+
+Example C08_encode_decode_flat_i64_ex :
+  exists buf', run_c08_enc 8301 [0; 2; 2; 2; 3; 1; 0; 0; 0; 0; 7; 10] [[11; 12; 13; 14; 15; 16; 17; 18; 19; 20; 21; 22]; [-100; 77]]
+             = Some [buf'; [-100; 77]].
+Proof.
+  destruct (C08_encode_decode_flat_i64 [0; 2; 2; 2; 3; 1; 0; 0; 0; 0; 7; 10]
+              [11; 12; 13; 14; 15; 16; 17; 18; 19; 20; 21; 22] [-100; 77]) as (buf' & H & _);
+    try (cbn; lia); try reflexivity.
+  - repeat constructor; unfold in_range; cbn; lia.
+  - exists buf'. exact H.
+Qed.
+
+Example C08_decode_float_exact_ex : dec_float 7 [1; -2; 3] = (1 * 2 ^ 14 + -2 * 2 ^ 7 + 3, 21).
 Proof. reflexivity. Qed.
-Print Assumptions C08_encode_placeholder.
